@@ -5,6 +5,18 @@ HERE = os.path.dirname(os.path.dirname(os.path.abspath(__file__)))
 ALL = ['C%02d' % i for i in range(1, 21)]
 
 CHECKS = {
+ 'C01': dict(
+   cat='proof',
+   text='Round-trip theorem over the Disk.store/fetch decision trees regenerated from core.py on every run: for every value (any int, float class, code-point list, byte list, other object, stream), every min_file_size and every codec with load(dumps v)=v, whatever store accepts a lookup returns unchanged and the recorded size is the file size; store rejects exactly unencodable text; JSONDisk round trip (stream + plain get refuted = finding C01-F3). Tie: AST translator (type tests, thresholds, modes, open() mode/encoding/newline) + model-vs-implementation comparison of row, file bytes and lookup result + monitor through every accessor.',
+   note='Trusted: Coq kernel; hand-written models of CPython sqlite3 binding and POSIX text-mode newline handling (validated each run); pickle/json/zlib/UTF-8 round trip as explicit premises; accessor plumbing (get/pop/pull/peek/peekitem/Deque/Index return fetch of what store produced) is exercised by the monitor, proved only at the codec level here (C03 for the table level). Deque over a JSONDisk cache is excluded (queue keys bypass Disk.put; not constructible through the public Deque constructor).',
+   tech='Coq proof (case analysis over generated decision trees, codec premises) + generated model + differential testing',
+   ref='7 (C01)'),
+ 'C02': dict(
+   cat='proof',
+   text='Theorems over the regenerated Disk.put/get: for every pair of keys in the domain, the UNIQUE(key, raw) index identifies them iff they are equal under the documented rule (exact int/float comparison, str/bytes by content, everything else by serialised form, native never equal to serialised); get(put k) = k; JSONDisk identity = JSON text (1 vs 1.0 refuted = finding C02-F1). Tie: translator + model-vs-database comparison on enumerated pairs + pair monitor (len, membership, get, iteration).',
+   note='Trusted: Coq kernel; hand-written SQLite comparison model (storage classes, exact int/real order, memcmp) validated on every pair; injectivity of optimised pickle as a premise. Table-level clauses (no shadowing through set/get, iteration order) are checked by the monitor here and proved in C03.',
+   tech='Coq proof (case analysis over key classes) + generated model + exhaustive pair enumeration',
+   ref='7 (C02)'),
  'C16': dict(
    cat='proof',
    text='Theorems about the args_to_key regenerated from core.py on every run: key injectivity for every base/typed/ignore/arity (full statement refuted by a vm_compute witness = finding C16-F1; strongest true restriction proved), wrapper returns f / repeat served from cache / expire<=0 stores nothing for Cache, Django wrappers, stampede guard key distinct. Tie: fail-closed AST translator + model-vs-implementation key comparison + exhaustive pair monitor on the implementation.',
